@@ -172,6 +172,55 @@ static std::string adopt(int k, void *pv, size_t size, size_t align, unsigned se
 }
 
 // ---------------------------------------------------------------- element type
+// element type that is copyable AND constructible from an initializer_list of itself: `T{t}` and `T(t)` differ for it
+struct Nest {
+  std::vector<Nest> kids;
+  std::string tag;
+  Nest() {}
+  explicit Nest(const std::string &t) : tag(t) {}
+  Nest(std::initializer_list<Nest> l) : kids(l) {}
+  bool operator==(const Nest &o) const { return tag == o.tag && kids == o.kids; }
+  bool operator!=(const Nest &o) const { return !(*this == o); }
+};
+template <typename E> struct MakeElem;
+template <> struct MakeElem<std::string> { static std::string make(unsigned n, char c) { return std::string(n, c); } };
+template <> struct MakeElem<Nest> { static Nest make(unsigned n, char c) { Nest x(std::string(n, c)); if (n % 3 == 0) x.kids.push_back(Nest(std::string(1, c))); return x; } };
+
+template <typename E>
+static std::string svcheckRun(unsigned long long seed)
+{
+  unsigned long long st = seed * 2654435761ull + 12345;
+  auto rnd = [&](unsigned m) { st = st * 6364136223846793005ull + 1442695040888963407ull; return (unsigned)((st >> 33) % m); };
+  typedef rkcommon::containers::AlignedVector<E> AV;
+  typedef std::vector<E> SV;
+  AV a, a2;
+  SV r, r2;
+  auto same = [&]() -> bool {
+    if (a.size() != r.size() || a2.size() != r2.size()) return false;
+    for (size_t i = 0; i < r.size(); i++) if (a[i] != r[i]) return false;
+    for (size_t i = 0; i < r2.size(); i++) if (a2[i] != r2[i]) return false;
+    if (!a.empty() && !rkcommon::memory::isAligned(a.data(), 64)) return false;
+    if (!a2.empty() && !rkcommon::memory::isAligned(a2.data(), 64)) return false;
+    return true;
+  };
+  for (int step = 0; step < 60; step++) {
+    unsigned k = rnd(9);
+    E val = MakeElem<E>::make(1 + rnd(40), char('a' + rnd(26)));
+    if (k == 0) { a.push_back(val); r.push_back(val); }
+    else if (k == 1 && !r.empty()) { size_t i = rnd((unsigned)r.size()); a.emplace_back(a[i]); r.emplace_back(r[i]); }
+    else if (k == 2 && !r.empty()) { size_t i = rnd((unsigned)r.size()), j = rnd((unsigned)r.size() + 1);
+      E &la = a[i]; E ca = la; a.insert(a.begin() + j, ca); E cr = r[i]; r.insert(r.begin() + j, cr); }
+    else if (k == 3) { a2.assign(a.begin(), a.end()); r2.assign(r.begin(), r.end()); }
+    else if (k == 4) { AV t(a.begin(), a.end()); SV tr(r.begin(), r.end()); a2.swap(t); r2.swap(tr); }
+    else if (k == 5 && !r.empty()) { size_t i = rnd((unsigned)r.size()); a.emplace(a.begin(), a[i]); r.emplace(r.begin(), r[i]); }
+    else if (k == 6) { a.resize(rnd(12), val); r.resize(a.size(), val); }
+    else if (k == 7 && !r.empty()) { a.pop_back(); r.pop_back(); }
+    else if (k == 8) { a2 = a; r2 = r; }
+    if (!same()) return "differs-from-std-vector@" + std::to_string(step) + ":op" + std::to_string(k);
+  }
+  return "ok";
+}
+
 template <int N>
 struct E
 {
@@ -458,39 +507,15 @@ int runTyped()
           return "ok";
         }
         if (op == "svcheck") {
-          // element type with an observable moved-from state: AlignedVector<std::string> must behave exactly like
-          // std::vector<std::string> (same template, other allocator) on a history that passes non-const lvalues to
-          // emplace_back / insert / assign / range construction; data() stays aligned
-          unsigned long long st = vh::to_ull(w.at(1)) * 2654435761ull + 12345;
-          auto rnd = [&](unsigned m) { st = st * 6364136223846793005ull + 1442695040888963407ull; return (unsigned)((st >> 33) % m); };
-          typedef containers::AlignedVector<std::string> AV;
-          typedef std::vector<std::string> SV;
-          AV a, a2;
-          SV r, r2;
-          auto same = [&]() -> bool {
-            if (a.size() != r.size() || a2.size() != r2.size()) return false;
-            for (size_t i = 0; i < r.size(); i++) if (a[i] != r[i]) return false;
-            for (size_t i = 0; i < r2.size(); i++) if (a2[i] != r2[i]) return false;
-            if (!a.empty() && !memory::isAligned(a.data(), 64)) return false;
-            if (!a2.empty() && !memory::isAligned(a2.data(), 64)) return false;
-            return true;
-          };
-          for (int step = 0; step < 60; step++) {
-            unsigned k = rnd(9);
-            std::string val = std::string(1 + rnd(40), char('a' + rnd(26)));
-            if (k == 0) { a.push_back(val); r.push_back(val); }
-            else if (k == 1 && !r.empty()) { size_t i = rnd((unsigned)r.size()); a.emplace_back(a[i]); r.emplace_back(r[i]); }
-            else if (k == 2 && !r.empty()) { size_t i = rnd((unsigned)r.size()), j = rnd((unsigned)r.size() + 1);
-              std::string &la = a[i]; std::string ca = la; a.insert(a.begin() + j, ca); std::string cr = r[i]; r.insert(r.begin() + j, cr); }
-            else if (k == 3) { a2.assign(a.begin(), a.end()); r2.assign(r.begin(), r.end()); }
-            else if (k == 4) { AV t(a.begin(), a.end()); SV tr(r.begin(), r.end()); a2.swap(t); r2.swap(tr); }
-            else if (k == 5 && !r.empty()) { size_t i = rnd((unsigned)r.size()); a.emplace(a.begin(), a[i]); r.emplace(r.begin(), r[i]); }
-            else if (k == 6) { a.resize(rnd(12), val); r.resize(a.size(), val); }
-            else if (k == 7 && !r.empty()) { a.pop_back(); r.pop_back(); }
-            else if (k == 8) { a2 = a; r2 = r; }
-            if (!same()) return "differs-from-std-vector@" + std::to_string(step) + ":op" + std::to_string(k);
-          }
-          return "ok";
+          // element types with an observable moved-from state / constructor choice: AlignedVector<E> must behave exactly
+          // like std::vector<E> (same template, other allocator) on a history that passes non-const lvalues to
+          // emplace_back / insert / assign / range construction; data() stays aligned.  E = std::string, and E = a
+          // tree node that also has an initializer_list constructor (a brace-initialised copy would nest it)
+          unsigned long long seed = vh::to_ull(w.at(1));
+          std::string r1 = svcheckRun<std::string>(seed);
+          if (r1 != "ok") return r1;
+          std::string r2 = svcheckRun<Nest>(seed + 1);
+          return r2 == "ok" ? "ok" : "nest:" + r2;
         }
         if (op == "churn") {
 #if defined(RKCOMMON_TASKING_TBB)
